@@ -63,6 +63,37 @@ def revBitsK : Nat → Nat → Nat
 """
 
 
+def canon(e):
+    """canonical source text of an expression (table keys: abstracted expressions, effects, fragment starts)"""
+    k = e[0]
+    if k == "num": return str(e[1]) + (e[2] or "")
+    if k == "float": return e[1]
+    if k == "bool": return "true" if e[1] else "false"
+    if k == "path": return "::".join(e[1])
+    if k == "paren": return "(" + canon(e[1]) + ")"
+    if k == "cast": return canon(e[1]) + " as " + (e[2][1] if e[2][0] == "name" else "<ty>")
+    if k == "bin": return canon(e[2]) + " " + e[1] + " " + canon(e[3])
+    if k == "un": return e[1] + canon(e[2])
+    if k == "deref": return "*" + canon(e[1])
+    if k == "ref": return ("&mut " if e[1] else "&") + canon(e[2])
+    if k == "field": return canon(e[1]) + "." + e[2]
+    if k == "mcall": return canon(e[1]) + "." + e[2] + "(" + ", ".join(canon(a) for a in e[3]) + ")"
+    if k == "call": return "::".join(e[1]) + "(" + ", ".join(canon(a) for a in e[2]) + ")"
+    if k == "index": return canon(e[1]) + "[" + canon(e[2]) + "]"
+    if k == "vecrep": return "vec![" + canon(e[1]) + "; " + canon(e[2]) + "]"
+    if k == "vec": return "vec![" + ", ".join(canon(a) for a in e[1]) + "]"
+    if k == "tuple": return "(" + ", ".join(canon(a) for a in e[1]) + ")"
+    return "<" + k + ">"
+
+
+def scanon(s):
+    """canonical text of a simple statement (`let`, expression statement, assignment); None for anything else"""
+    if s[0] == "let" and isinstance(s[1], str): return "let " + ("mut " if s[2] else "") + s[1] + (" = " + canon(s[4]) if s[4] is not None else "")
+    if s[0] == "expr": return canon(s[1])
+    if s[0] == "assign": return canon(s[1]) + " " + (s[2] or "") + "= " + canon(s[3])
+    return None
+
+
 def tup(names):
     names = list(names)
     if not names: return "()"
@@ -104,6 +135,8 @@ class Lower:
         for text, binder, ty in self.abs: self.ltypes[binder] = ty
         self.assert_kind = ent.get("assert_kind", "refused")
         self.fuels = list(ent.get("fuels", []))
+        self.eff_used = set()
+        self.param_rust_ty = {pn: pt[1] for pn, pt, _ in fn["params"] if pn != "self" and pt[0] == "name"}
 
     # ---- diagnostics
     def fail(self, what, ln=None):
@@ -180,25 +213,7 @@ class Lower:
         return f"({name} " + " ".join(caps) + ")" if caps else name
 
     # ---- canonical text of an expression (for the table of abstracted float expressions)
-    def canon(self, e):
-        k = e[0]
-        if k == "num": return str(e[1]) + (e[2] or "")
-        if k == "float": return e[1]
-        if k == "bool": return "true" if e[1] else "false"
-        if k == "path": return "::".join(e[1])
-        if k == "paren": return "(" + self.canon(e[1]) + ")"
-        if k == "cast": return self.canon(e[1]) + " as " + self.canon_ty(e[2])
-        if k == "bin": return self.canon(e[2]) + " " + e[1] + " " + self.canon(e[3])
-        if k == "un": return e[1] + self.canon(e[2])
-        if k == "field": return self.canon(e[1]) + "." + e[2]
-        if k == "mcall": return self.canon(e[1]) + "." + e[2] + "(" + ", ".join(self.canon(a) for a in e[3]) + ")"
-        if k == "call": return "::".join(e[1]) + "(" + ", ".join(self.canon(a) for a in e[2]) + ")"
-        if k == "index": return self.canon(e[1]) + "[" + self.canon(e[2]) + "]"
-        return "<" + k + ">"
-
-    def canon_ty(self, t):
-        if t[0] == "name": return t[1]
-        return "<ty>"
+    def canon(self, e): return canon(e)
 
     def uses_names(self, e, acc):
         if isinstance(e, tuple):
@@ -284,7 +299,7 @@ class Lower:
                 if c == text:
                     self.abs_used.add(i)
                     for n in self.uses_names(e, set()):
-                        if n in ("usize", "f64", "u32"): continue
+                        if n in ("usize", "f64", "u32") or n in self.ent.get("opaque", []): continue
                         v = self.lookup(n, ln)
                         if v.mut or not v.lean.startswith("a"): self.fail(f"abstracted expression `{text}` mentions `{n}`, which is not an immutable parameter", ln)
                     return [], binder, "nat"
@@ -298,6 +313,7 @@ class Lower:
         if k == "path":
             segs = e[1]
             if len(segs) == 1:
+                if segs[0] in self.G.consts and not any(segs[0] in sc for sc in self.scopes): return [], str(self.G.consts[segs[0]]), "nat"
                 v = self.lookup(segs[0], ln); return [], v.lean, v.ty
             if segs == ["usize", "MAX"]: return [], str(USIZE_MAX), "nat"
             if len(segs) == 2 and segs[0] in self.G.enums:
@@ -317,7 +333,7 @@ class Lower:
         if k == "cast":
             ls, t, ty = self.expr(e[1], ln)
             if ty == "nat" and e[2][0] == "name" and e[2][1] in ("usize", "u64"): return ls, t, "nat"
-            self.fail(f"cast `as {self.canon_ty(e[2])}`", ln)
+            self.fail(f"cast `{canon(e)}`", ln)
         if k == "un":
             if e[1] == "!":
                 ls, t, ty = self.expr(e[2], ln)
@@ -366,6 +382,11 @@ class Lower:
                 l1, a, ta = self.expr(recv, ln); l2, b, tb = self.expr(args[0], ln)
                 if ta != "nat" or tb != "nat": self.fail("`.pow` on non-words", ln)
                 t = self.tmp(); return l1 + l2 + [f"let {t} ← ckPow {atom(a)} {atom(b)}"], t, "nat"
+            if m == "reverse_bits" and not args:
+                # only on a PARAMETER declared `u64` (all word types are Nat here; the width must be known): TRUSTED primitive
+                if recv[0] == "path" and len(recv[1]) == 1 and self.param_rust_ty.get(recv[1][0]) == "u64":
+                    l1, a, ta = self.expr(recv, ln); return l1, f"revBitsK 64 {atom(a)}", "nat"
+                self.fail("`.reverse_bits()` on something that is not a `u64` parameter", ln)
             if m == "len" and not args:
                 l1, a, ta = self.expr(recv, ln)
                 if ta != ("list", "nat"): self.fail("`.len()` of a non-vector", ln)
@@ -385,7 +406,10 @@ class Lower:
                     if ty != "nat": self.fail("argument of a primitive must be a word", ln)
                     ls += l; ts.append(atom(t))
                 return ls, f"{lf} " + " ".join(ts), "nat"
-            if len(segs) != 1 or key not in self.G.sigs: self.fail(f"call of `{'::'.join(segs)}` (not in the table)", ln)
+            other = self.ent.get("fncalls", {}).get("::".join(segs))
+            if other is not None: key = tuple(other)        # a function of another file, translated earlier (table key `fncalls`: path -> (file, fn))
+            elif len(segs) != 1: key = None
+            if key not in self.G.sigs: self.fail(f"call of `{'::'.join(segs)}` (not in the table)", ln)
             sig = self.G.sigs[key]
             if len(args) != len(sig["params"]): self.fail(f"call of `{segs[-1]}` with {len(args)} arguments", ln)
             ls = []; ts = []
@@ -407,6 +431,17 @@ class Lower:
             if ta != "nat" or tb != "nat": self.fail("vec![x; n] on non-words", ln)
             return l1 + l2, f"List.replicate {atom(b)} {atom(a)}", ("list", "nat")
         if k == "match": return self.match_value(e, ln)
+        if k == "if":
+            if e[3] is None: self.fail("`if` without `else` used as a value", ln)
+            lc, c, cty = self.expr(e[1], ln)
+            la, ta, tya = self.value_block(("blockexpr", e[2]), ln); lb, tb, tyb = self.value_block(("blockexpr", e[3]), ln)
+            if tya != tyb: self.fail("`if` branches of different types", ln)
+            if not la and not lb: return lc, f"if {self.prop(c, cty, ln)} then {ta} else {tb}", tya
+            t = self.tmp(tya)
+            ba = self.tail_opt(la + [f"pure {atom(ta)}"]); bb = self.tail_opt(lb + [f"pure {atom(tb)}"])
+            out = [f"let {t} ← (if {self.prop(c, cty, ln)} then", "    (do"] + ["      " + x for x in ba[:-1]] + ["      " + ba[-1] + ")", "  else", "    (do"] \
+                  + ["      " + x for x in bb[:-1]] + ["      " + bb[-1] + "))"]
+            return lc + out, t, tya
         if k == "structlit": return self.structlit(e, ln)
         self.fail(f"expression `{k}`", ln)
 
@@ -503,7 +538,7 @@ class Lower:
 
     def stmts(self, ss, i, k, ind):
         if i == len(ss): return k(ind)
-        s = ss[i]; kind = s[0]; ln = s[-1]
+        s = ss[i]; kind = s[0]; ln = s[-1] if (s[-1] is None or isinstance(s[-1], int)) else None
         rest = lambda ind2: self.stmts(ss, i + 1, k, ind2)
         if kind == "let":
             if not isinstance(s[1], str): self.fail("tuple pattern", ln)
@@ -556,13 +591,26 @@ class Lower:
                 ls, t, ty = self.expr(e[3][0], ln)
                 if ty != "nat": self.fail("`.push` of a non-word", ln)
                 return self.I(ind, ls + [f"let {v.lean} := {v.lean} ++ [{t}]"]) + rest(ind)
-            if i == len(ss) - 1 and ln is None:
-                # value of the function body
-                ls, t, ty = self.expr(e, ln)
-                self.result_ty = ty
-                body = self.tail_opt(ls + [f"pure {atom(t)}"])
-                return self.I(ind, body)
             self.fail(f"expression statement `{e[0]}`", ln)
+        if kind == "fnvalue":
+            # value of the function body (tail position); an `if .. else ..` here is a tail-`if` whose branches are values again
+            e = s[1]
+            if i != len(ss) - 1: self.fail("statements after the function's value")
+            if e[0] == "if" and e[3] is not None:
+                ls, c, cty = self.expr(e[1], ln)
+                out = self.I(ind, ls + [f"if {self.prop(c, cty, ln)} then"])
+                for n, br in enumerate((e[2], e[3])):
+                    bst, bt = br
+                    if bt is None: self.fail("branch of the function's value without a value")
+                    self.scopes.append({})
+                    out += self.stmts(list(bst) + [("fnvalue", bt, None)], 0, k, ind + 1)
+                    self.scopes.pop()
+                    if n == 0: out += self.I(ind, ["else"])
+                return out
+            ls, t, ty = self.expr(e, ln)
+            if self.result_ty not in (None, ty): self.fail(f"function value of type {ty} and {self.result_ty}")
+            self.result_ty = ty
+            return self.I(ind, self.tail_opt(ls + [f"pure {atom(t)}"]))
         self.fail(f"statement `{kind}`", ln)
 
     def if_stmt(self, e, rest, ind, ln):
@@ -578,7 +626,9 @@ class Lower:
         M = self.assigned(([("expr", ("if", ("bool", True), A, B), None)], None))
         pat = tup(M)
         ka = lambda ind2: self.I(ind2, [f"pure {pat}"])
+        known = list(self.ltypes)
         la = self.block(A, ka, 0); lb = self.block(B, ka, 0)
+        self.check_rebinds(la + lb, known, M, ln)
         pure_a = all(re.match(r"\s*let \S+ := ", l) for l in la[:-1]); pure_b = all(re.match(r"\s*let \S+ := ", l) for l in lb[:-1])
         if pure_a and pure_b and M:
             def chain(lines): return "".join(l.strip() + "; " for l in lines[:-1]) + pat
@@ -621,6 +671,7 @@ class Lower:
         self.loops.pop(); self.scopes.pop()
         comb = "forDown" if rev else "forUp"
         lhs = pat if M else "()"
+        self.check_rebinds(lb, known, M, ln)
         f = self.aux_loop("for", ln, lb, [v.lean] + M, pat, M, f"fun {v.lean} {pat}", known)
         out = self.I(ind, l1 + l2 + [f"let {lhs} ← {comb} {atom(a)} {cnt} {pat} {f}"])
         return out + rest(ind)
@@ -638,9 +689,50 @@ class Lower:
         lb = self.block(body, kb, 3)
         self.loops.pop()
         lines = self.I(2, ls + [f"if {self.prop(c, cty, ln)} then"]) + lb + self.I(2, ["else", f"  pure (Ctl.brk {pat})"])
+        self.check_rebinds(lines, known, M, ln)
         f = self.aux_loop("while", ln, lines, M, pat, M, f"fun {pat}", known)
         out = self.I(ind, [f"let {pat if M else '()'} ← whileFuel {fuel} {pat} {f}"])
         return out + rest(ind)
+
+    # ---- skeleton reading of statements on opaque objects (table key `effects`: canonical statement text -> replacement statements;
+    #      TRUSTED).  A PRE-PASS over the whole body, so that every later analysis (assigned variables, escapes) sees the rewritten code.
+    def apply_effects(self, b):
+        eff = self.ent.get("effects", {})
+        def ex(e):
+            if not isinstance(e, tuple) or not e: return e
+            if e[0] == "if": return ("if", e[1], blk(e[2]), blk(e[3]) if e[3] is not None else None)
+            if e[0] == "blockexpr": return ("blockexpr", blk(e[1]))
+            if e[0] == "match": return ("match", e[1], [(p, ex(body)) for p, body in e[2]])
+            return e
+        def blk(b):
+            stmts, tail = b; out = []
+            for s in stmts:
+                sc = scanon(s)
+                if sc is not None and sc in eff:
+                    self.eff_used.add(sc)
+                    ps = self.T.Parser(self.T.tokenize("{" + eff[sc] + "}", s[-1] if isinstance(s[-1], int) else 0), self.fn["name"]); ps.allow_continue = True
+                    rs, rt = ps.block()
+                    if rt is not None: self.fail(f"effect replacement of `{sc}` must consist of statements", s[-1])
+                    out += list(rs); continue
+                k = s[0]
+                if k == "let": out.append(("let", s[1], s[2], s[3], ex(s[4]) if s[4] is not None else None, s[5]))
+                elif k == "expr": out.append(("expr", ex(s[1]), s[2] if len(s) > 2 else None))      # (the parser emits a 2-tuple for a block-like expression statement)
+                elif k == "for": out.append(("for", s[1], s[2], blk(s[3]), s[4]))
+                elif k == "while": out.append(("while", s[1], blk(s[2]), s[3]))
+                elif k == "loop": out.append(("loop", blk(s[1]), s[2]))
+                else: out.append(s)
+            return (out, ex(tail) if tail is not None else None)
+        return blk(b)
+
+    def check_rebinds(self, lines, known, M, ln):
+        """guard against gaps of the assigned-variable analysis: a loop body / branch must not re-bind a variable that was declared outside
+        it unless that variable is part of the state it returns"""
+        for l in lines:
+            m = re.match(r"\s*let \(?([A-Za-z0-9_, ]+)\)? (?:←|:=) ", l)
+            if not m: continue
+            for n in re.split(r"[ ,]+", m.group(1).strip()):
+                if n in known and n not in M and re.fullmatch(r"[av]\d+", n):
+                    self.fail(f"internal: `{n}` is re-bound inside a loop body / branch but is not part of its state", ln)
 
     # ---- the function
     def run(self):
@@ -658,11 +750,15 @@ class Lower:
         for text, binder, ty in self.abs: binders.append(f"({binder} : {ty})")
         ret = self.rty(fn["ret"], "return type")
         self.result_ty = None
-        body = self.block(fn["body"], lambda ind: self.fail("function body without a value"), 1, scoped=False)
+        bst, bt = self.apply_effects(fn["body"])
+        if bt is None: self.fail("function body without a value")
+        body = self.stmts(list(bst) + [("fnvalue", bt, None)], 0, lambda ind: self.fail("function body without a value"), 1)
         if self.result_ty != ret: self.fail(f"body has type {self.result_ty}, declared {ret}")
         for i, (text, binder, ty) in enumerate(self.abs):
             if i not in self.abs_used: self.fail(f"table entry `{text}` never matched")
         if self.fuels: self.fail("unused fuel entries in the table")
+        for sc in self.ent.get("effects", {}):
+            if sc not in self.eff_used: self.fail(f"effects entry `{sc}` never matched")
         doc = (f"/-- `{fn['name']}`" + (f" (impl {fn['impl']})" if fn["impl"] else "") + f"  {fn['file']}:{fn['line0']}-{fn['line1']}  sha256/64(normalised source) = {fn['hash']}\n"
                f"    names: {' '.join(self.namemap)} -/")
         head = f"def {self.name} " + " ".join(binders) + f" : R {atom(self.lty(ret))} := do"
@@ -737,50 +833,95 @@ class Gen:
                 self.enums[ent["enum_alias"]] = self.enums[ent["of"]]; continue
             if "struct" in ent: out += [self.load_struct(ent), ""]; continue
             for cn, crel in ent.get("consts", {}).items(): self.load_const(cn, crel)
-            fn = self.T.parse_fn(self.repo, ent["file"], ent["fn"], ent.get("impl"), allow_continue=True)
-            if "fragment" in ent: fn = fragment(self.T, fn, ent)
+            if "fragment" in ent: fn = parse_fragment(self.T, self.repo, ent)
+            else: fn = self.T.parse_fn(self.repo, ent["file"], ent["fn"], ent.get("impl"), allow_continue=True)
             r = Lower(self, fn, ent).run()
-            self.sigs[(ent["file"], ent["fn"])] = r
+            if "fragment" not in ent: self.sigs[(ent["file"], ent["fn"])] = r
             out += [r["text"], ""]
         out += [f"end HC.{spec['ns']}", ""]
         return "\n".join(out)
 
 
-def fragment(T, fn, ent):
-    """table key `fragment`: translate only a contiguous run of statements of a function that as a whole is outside the subset.
-    {"start": <canonical `let` name that starts the run>, "end_for": True, "params": [(name, type)], "result": name, "ret": type}
-    The run starts at the unique top-level-or-nested statement `let <start> = ..` and ends with the first `for` statement after it in the same
-    block (inclusive).  Free variables of the run must be exactly the declared `params` (checked by the lowering: anything else is an unknown
-    identifier); the value of the fragment is the variable `result`."""
-    fr = ent["fragment"]
-    found = []
-    def walk_block(b):
-        stmts, tail = b
-        for i, s in enumerate(stmts):
-            if s[0] == "let" and s[1] == fr["start"]:
-                for j in range(i, len(stmts)):
-                    if stmts[j][0] == "for": found.append(stmts[i:j + 1]); break
-            for x in s:
-                walk_any(x)
-        walk_any(tail)
-    def walk_any(x):
-        if isinstance(x, tuple) and len(x) == 2 and isinstance(x[0], list) and (x[1] is None or isinstance(x[1], tuple)):
-            walk_block(x)
-        elif isinstance(x, (tuple, list)):
-            for y in x: walk_any(y)
-    walk_block(fn["body"])
-    if len(found) != 1: raise T.Unsupported(f"{fn['file']}: fn {fn['name']}: fragment starting at `let {fr['start']}` found {len(found)} times")
-    run = found[0]
-    pre = [("let", n, True, None, ("vecrep", ("num", 0, None), ("path", [sz])), run[0][-1]) for n, sz in fr.get("zero_vecs", [])]
-    fn2 = dict(fn)
-    fn2["params"] = [(n, t, False) for n, t in fr["params"]]
-    fn2["ret"] = fr["ret"]
-    fn2["body"] = (pre + list(run), ("path", [fr["result"]]))
-    fn2["impl"] = fn["impl"]; fn2["selfty"] = None
-    toks = " ".join(repr(s) for s in run)
-    fn2["hash"] = hashlib.sha256(re.sub(r", \d+\)", ")", toks).encode()).hexdigest()[:16]
-    fn2["line0"] = run[0][-1]; fn2["line1"] = run[-1][-1]
-    return fn2
+def stmt_end(T, toks, k, what):
+    """index just after the statement that starts at token k (token level: a `for` / `while` / `loop` / `if` statement ends with its last
+    block, anything else with the first `;` outside brackets)"""
+    def close(q):      # q at `{`: index just after the matching `}`
+        d = 0
+        while q < len(toks):
+            if toks[q][1] == "{": d += 1
+            elif toks[q][1] == "}":
+                d -= 1
+                if d == 0: return q + 1
+            q += 1
+        raise T.Unsupported(f"{what}: unbalanced braces in fragment")
+    def to_brace(q):
+        d = 0
+        while q < len(toks):
+            t = toks[q][1]
+            if t in ("(", "["): d += 1
+            elif t in (")", "]"): d -= 1
+            elif t == "{" and d == 0: return q
+            q += 1
+        raise T.Unsupported(f"{what}: block expected in fragment")
+    if k >= len(toks): raise T.Unsupported(f"{what}: fragment runs past the end of the function")
+    t0 = toks[k][1]
+    if t0 in ("for", "while", "loop"): return close(to_brace(k))
+    if t0 == "if":
+        q = close(to_brace(k))
+        while q < len(toks) and toks[q][1] == "else":
+            q = close(to_brace(q))
+        return q
+    d = 0; q = k
+    while q < len(toks):
+        t = toks[q][1]
+        if t in ("(", "[", "{"): d += 1
+        elif t in (")", "]", "}"):
+            d -= 1
+            if d < 0: raise T.Unsupported(f"{what}: fragment statement runs out of its block")
+        elif t == ";" and d == 0: return q + 1
+        q += 1
+    raise T.Unsupported(f"{what}: `;` expected in fragment")
+
+
+def parse_fragment(T, repo, ent):
+    """table key `fragment`: translate only a contiguous run of statements of a function that as a whole is outside the subset (opaque
+    objects, `unsafe`, generic types in the signature).  TOKEN level: {"start": source text with which the first statement begins (its token
+    sequence must occur exactly once in the function body), "count": number of statements, "params": [(name, Rust type AST)] = the free
+    variables of the run (anything else is an unknown identifier: loud failure), "prologue": Rust statements put in front (declarations of
+    result variables), "result": the variable returned, "ret": its type}.  Only the run is parsed."""
+    fr = ent["fragment"]; rel = ent["file"]; name = ent["fn"]; impl = ent.get("impl")
+    what = f"{rel}: fn {name}"
+    src = T.strip_comments(open(os.path.join(repo, rel)).read())
+    lo, hi = 0, None
+    if impl is not None:
+        pat = r"\bimpl\s+" + r"\s+".join(re.escape(w) for w in impl.split()) + r"\s*\{"
+        hits = []
+        for mb in re.finditer(pat, src):
+            j0 = mb.end() - 1; e0 = T.brace_block(src, j0, f"impl {impl}")
+            if re.search(r"\bfn\s+%s\s*\(" % re.escape(name), src[j0:e0]): hits.append((j0, e0))
+        if len(hits) != 1: raise T.Unsupported(f"{what} found in {len(hits)} `impl {impl}` blocks")
+        lo, hi = hits[0]
+    off, line = T.find_fn(src, name, rel if impl is None else f"{rel} (impl {impl})", lo, hi)
+    j = src.index("{", off); end = T.brace_block(src, j, what)
+    toks = T.tokenize(src[j:end], src.count("\n", 0, j) + 1)[:-1]
+    pat = [t[1] for t in T.tokenize(fr["start"])][:-1]
+    hits = [i for i in range(len(toks) - len(pat) + 1) if [t[1] for t in toks[i:i + len(pat)]] == pat]
+    if len(hits) != 1: raise T.Unsupported(f"{what}: fragment start `{fr['start']}` found {len(hits)} times")
+    i = hits[0]; k = i
+    for _ in range(fr["count"]): k = stmt_end(T, toks, k, what)
+    l0 = toks[i][2]; l1 = toks[k - 1][2]
+    body = [("p", "{", l0)] + toks[i:k] + [("p", "}", l1), ("eof", "", l1)]
+    ps = T.Parser(body, name); ps.allow_continue = True
+    stmts, tail = ps.block()
+    if tail is not None: stmts = list(stmts) + [("expr", tail, l1)]
+    pre = []
+    if fr.get("prologue"):
+        pp = T.Parser(T.tokenize("{" + fr["prologue"] + "}", l0), name); pre, pt = pp.block()
+        if pt is not None: raise T.Unsupported(f"{what}: fragment prologue must consist of statements")
+    norm = " ".join(t[1] for t in toks[i:k])
+    return {"name": name + " [fragment]", "params": [(n, t, False) for n, t in fr["params"]], "ret": fr["ret"],
+            "body": (list(pre) + list(stmts), ("path", [fr["result"]])), "file": rel, "line0": l0, "line1": l1,
+            "hash": hashlib.sha256(norm.encode()).hexdigest()[:16], "norm": norm, "selfty": None, "aliases": {}, "impl": impl}
 
 
 def generate(T, tr, spec):
